@@ -72,7 +72,7 @@ class _NPs:
 
     @staticmethod
     def frombuffer(b, dtype=None):
-        return _Out(b[1] // {"int8": 1, "int16": 2, "int32": 4}[dtype], dtype)
+        return _Out(b[1] // {"int8": 1, "int16": 2, "int32": 4, "uint8": 1, "uint16": 2, "uint32": 4}[dtype], dtype)
 
     # elementwise comparison with a scalar (into `out` when given: the array then HOLDS the 0/1 result) and the count of
     # non-zero entries - numpy's documented contracts
@@ -206,7 +206,8 @@ def h_page_v1(levels: List[int], bit_width: int, page_bytes: int, groups: int) -
         return body == [] and values.dtype[0] == "zeros"
     if SELFMADE and bit_width in (8, 16, 32):
         # raw fixed-width indices: (header >> 1) * 8 items are taken from the page and cut to nval
-        return body == [] and len(values) == min(nval, groups * 8)
+        # ... as the SIGNED integers the writer stored: its code -1 marks a missing value of a column written REQUIRED
+        return body == [] and len(values) == min(nval, groups * 8) and values.dtype == "int%d" % bit_width
     if len(body) != 1 or body[0][0] != "hybrid":
         return False
     kind, w, length, cap, dtype, isz = body[0]
@@ -218,6 +219,36 @@ def h_page_v1(levels: List[int], bit_width: int, page_bytes: int, groups: int) -
         bits is not None and bits[0] == 8 * isz
 
 
+def _replay_selfmade_codes():
+    """a categorical column written REQUIRED with missing values (code -1, 8-bit codes), then an append whose longer
+    category list makes the output codes 16 bits wide: the missing values of the first row group stay missing"""
+    import os, shutil, tempfile
+    import pandas as pd
+    import fastparquet
+    d = tempfile.mkdtemp(prefix="c07-")
+    try:
+        cats = ["c%03d" % i for i in range(300)]
+        for scheme in ("simple", "hive"):
+            fn = os.path.join(d, "ds-" + scheme)
+            a = pd.DataFrame({"x": pd.Categorical(["c000", None, "c001", None], categories=cats[:5])})
+            b = pd.DataFrame({"x": pd.Categorical(["c299", "c128"], categories=cats)})
+            fastparquet.write(fn, a, file_scheme=scheme, has_nulls=False)
+            fastparquet.write(fn, b, file_scheme=scheme, has_nulls=False, append=True)
+            try:
+                got = fastparquet.ParquetFile(fn).to_pandas()["x"].tolist()
+            except Exception as ex:
+                return True, "categorical column stored REQUIRED with missing values, after an append with 300 " \
+                             "categories: read fails with %s" % type(ex).__name__
+            got = [None if x is None or x != x else x for x in got]
+            want = ["c000", None, "c001", None, "c299", "c128"]
+            if got != want:
+                return True, ("categorical column stored REQUIRED with missing values (%s dataset), after an append "
+                              "whose category list has 300 entries: rows read %r, written %r" % (scheme, got, want))
+        return False, "missing values stay missing"
+    finally:
+        shutil.rmtree(d, ignore_errors=True)
+
+
 def replay_h_page_v1(levels, bit_width, page_bytes, groups):
     """file-level replay: a column whose single v1 page has this null layout and (for dictionaries) this index width,
     built from the specification and read through ParquetFile.to_pandas()"""
@@ -226,6 +257,8 @@ def replay_h_page_v1(levels, bit_width, page_bytes, groups):
     if ENC == "dict" and not SELFMADE:
         ok, info = flat_file.roundtrip_dict(nulls, bit_width, OPTIONAL)
         return (not ok), info
+    if ENC == "dict" and SELFMADE and bit_width in (8, 16, 32):
+        return _replay_selfmade_codes()
     if ENC in ("plain", "delta") and not OPTIONAL:
         vals = [7 + 1000 * i for i in range(len(levels))]
         ok, info = flat_file.roundtrip(vals, 64, 1, ENC == "delta")
